@@ -20,6 +20,7 @@ func init() {
 			"C05.consumed - every decoder, run on an encoding followed by nothing, accepts it with all indexes proven in range and reports Size() equal to the number of bytes of the encoding, also for " +
 			"containers with Number/String/null/nested-object children and for keys that may be equal (repeated keys); C05.count - a strict array's count prefix is the number of elements that follow. " +
 			"RTMP command parsers advancing by Size(): C03.order. " +
+			"C05.alias - no []byte result aliases storage that outlives the call (receiver fields, package variables, pooled buffers): an item handed out earlier stays what it was. " +
 			"Not decided: equality of arbitrary trees and key order under arbitrary API use (follows from the per-level results by induction, argued not mechanised).",
 		Assume: []string{"child contract: a value's MarshalBinary yields exactly Size() bytes (guaranteed level by level by C05.size itself)", "bytes.Buffer and encoding/binary models"},
 		Run:    runC05,
@@ -225,6 +226,7 @@ func newAmfEngine(c *Ctx) *abs.Engine {
 }
 
 func runC05(c *Ctx) {
+	checkOwnsBytes(c, "C05.alias", "amf0")
 	R := c.R
 	R.Require("C05.size", 16)
 	R.Require("C05.scalar", 4)
